@@ -1,3 +1,4 @@
+pub mod c01;
 pub mod c02;
 pub mod c03;
 pub mod c05;
@@ -9,6 +10,7 @@ use serde_json::Value;
 
 pub fn check(id: &str, tier: Tier, seed: u64) -> Option<i32> {
     Some(match id {
+        "C01" => c01::check(tier, seed),
         "C02" => c02::check(tier, seed),
         "C03" => c03::check(tier, seed),
         "C05" => c05::check(tier, seed),
@@ -21,6 +23,7 @@ pub fn check(id: &str, tier: Tier, seed: u64) -> Option<i32> {
 /// Some(Some(class)) reproduced, Some(None) not reproduced, None unknown property
 pub fn replay(id: &str, doc: &Value) -> Option<Option<String>> {
     Some(match id {
+        "C01" => c01::replay(doc),
         "C02" => c02::replay(doc),
         "C03" => c03::replay(doc),
         "C05" => c05::replay(doc),
